@@ -74,15 +74,25 @@ theorem ExitsOK.same {cx : Cx} {m j : Nat} {s s1 : St} {env : Src.Env} (h : Exit
 /-- can control run past the end of the piece (`_process_block` asks the same before it appends the end jump) -/
 abbrev falls (items : List LItem) : Bool := needsEndJump items
 
+/-- no label jump without label is left (an if-block patches the end jumps of its blocks) -/
+def NoNone (items : List LItem) : Prop := ∀ x ∈ items, ∀ root, x ≠ LItem.ljump root none
+
 /-- `items` was collected while the state went from `s` to `s'`; `trf k b` is what the source semantics builds for the same
 statements with continuation `k` onto the table `b`.  Wherever `items` is placed in the final program and the final node
 table agrees with what `trf` built, the entry of the piece and the entry node agree, if their continuations and exits do. -/
-def PieceOK (cx : Cx) (items : List LItem) (s s' : St) (trf : Nat → Src.B → Src.B × Nat) (env : Src.Env) : Prop :=
-  (s'.loops = s.loops ∧ s'.cases = s.cases ∧ lastNotCtx items = true) ∧
-  ∀ r i0, Placed cx.rs r i0 items → afterCtxL cx.rs ⟨r, i0⟩ = false → ∀ k b,
-    Grow b (trf k b).1 ∧
-    (AgreeOn cx.N b (trf k b).1 → ∀ m j, ExitsOK cx m j s env →
-      (falls items = true → R2 cx m j ⟨r, i0 + items.length⟩ k) → R2 cx m j ⟨r, i0⟩ (trf k b).2)
+structure PieceOK (cx : Cx) (items : List LItem) (s s' : St) (trf : Nat → Src.B → Src.B × Nat) (env : Src.Env) : Prop where
+  loops : s'.loops = s.loops
+  cases : s'.cases = s.cases
+  last : lastNotCtx items = true
+  nonone : NoNone items
+  /-- an empty piece stands for nothing -/
+  empty : items = [] → ∀ k b, trf k b = (b, k)
+  /-- a piece that is one `Jump` (`_process_block` may fold it into the header jumps): the statement goes to an exit -/
+  lone : ∀ l, loneJump items = some (some l) → ∃ n, (∀ k b, trf k b = (b, n)) ∧
+    ∀ m j, ExitsOK cx m j s env → R2 cx m j (target cx.rs l) n
+  grow : ∀ k b, Grow b (trf k b).1
+  corr : ∀ r i0, Placed cx.rs r i0 items → afterCtxL cx.rs ⟨r, i0⟩ = false → ∀ k b, AgreeOn cx.N b (trf k b).1 →
+    ∀ m j, ExitsOK cx m j s env → (falls items = true → R2 cx m j ⟨r, i0 + items.length⟩ k) → R2 cx m j ⟨r, i0⟩ (trf k b).2
 
 /-! ### `falls` of a sequence -/
 
